@@ -87,79 +87,95 @@ pub fn run(args: &Args, out: &mut Out) {
     }
     progs.extend(programs(args, out, &mut rng, "/verif/corpus/c12"));
     let progs: Vec<(String, String)> = progs.into_iter().filter(|(_, s)| full_moon::parse(s).is_ok()).collect();
-    // reference: a fresh checker per program
-    let fresh: Vec<Option<Vec<String>>> = progs
-        .iter()
-        .map(|(_, src)| {
-            let c: Checker<toml::value::Value> = Checker::new(CheckerConfig::default(), std51.clone()).unwrap();
-            lint(&c, src)
-        })
-        .collect();
-    let shared: Arc<Checker<toml::value::Value>> = Arc::new(Checker::new(CheckerConfig::default(), std51.clone()).unwrap());
-    let mut verdict: Vec<Vec<String>> = vec![Vec::new(); progs.len()];
-    // (a) repeated and shuffled sequences through the shared checker
-    for round in 0..3 {
-        let mut order: Vec<usize> = (0..progs.len()).collect();
-        for i in (1..order.len()).rev() {
-            let j = rng.below(i + 1);
-            order.swap(i, j);
-        }
-        for i in order {
-            let r = lint(&shared, &progs[i].1);
-            if r != fresh[i] {
-                verdict[i].push(format!("shared checker, round {round}: differs from a fresh single run"));
-            }
-        }
+    // two setups: the default configuration; and a configuration that names every built-in library in `std` while the
+    // effective library is an outdated copy lacking some of their names (the "you may have an outdated copy" advice of
+    // undefined_variable / incorrect_standard_library_use is produced only then)
+    let all_names: Vec<String> = {
+        let mut v: Vec<String> = StandardLibrary::all_default_standard_libraries().keys().map(|k| (*k).to_owned()).collect();
+        v.push("roblox".to_owned());
+        v.sort();
+        v
+    };
+    let mut stale = std51.clone();
+    for k in ["tostring", "math.floor", "table.insert", "select", "string.format"] {
+        stale.globals.remove(k);
     }
-    // (b) the same program twice in a row
-    for i in 0..progs.len() {
-        let a = lint(&shared, &progs[i].1);
-        let b = lint(&shared, &progs[i].1);
-        if a != b {
-            verdict[i].push("two consecutive runs in one process differ".to_owned());
-        }
-    }
-    // (c) eight threads over one Arc<Checker>
-    let progs_arc = Arc::new(progs.clone());
-    let fresh_arc = Arc::new(fresh.clone());
-    let mut handles = Vec::new();
-    for t in 0..8u64 {
-        let shared = Arc::clone(&shared);
-        let progs = Arc::clone(&progs_arc);
-        let fresh = Arc::clone(&fresh_arc);
-        let seed = args.seed ^ (t + 1) * 7919;
-        handles.push(std::thread::spawn(move || {
-            let mut r = Rng::new(seed);
-            let mut bad: Vec<usize> = Vec::new();
+    for (label, lib, std_setting) in [("", std51.clone(), None), ("stale-copy:", stale, Some(all_names.join("+")))] {
+        let mk_config = || CheckerConfig::<toml::value::Value> { std: std_setting.clone(), ..CheckerConfig::default() };
+        // reference: a fresh checker per program
+        let fresh: Vec<Option<Vec<String>>> = progs
+            .iter()
+            .map(|(_, src)| {
+                let c: Checker<toml::value::Value> = Checker::new(mk_config(), lib.clone()).unwrap();
+                lint(&c, src)
+            })
+            .collect();
+        let shared: Arc<Checker<toml::value::Value>> = Arc::new(Checker::new(mk_config(), lib.clone()).unwrap());
+        let mut verdict: Vec<Vec<String>> = vec![Vec::new(); progs.len()];
+        // (a) repeated and shuffled sequences through the shared checker
+        for round in 0..3 {
             let mut order: Vec<usize> = (0..progs.len()).collect();
             for i in (1..order.len()).rev() {
-                let j = r.below(i + 1);
+                let j = rng.below(i + 1);
                 order.swap(i, j);
             }
             for i in order {
-                if lint(&shared, &progs[i].1) != fresh[i] {
-                    bad.push(i);
+                let r = lint(&shared, &progs[i].1);
+                if r != fresh[i] {
+                    verdict[i].push(format!("shared checker, round {round}: differs from a fresh single run"));
                 }
             }
-            bad
-        }));
-    }
-    for h in handles {
-        if let Ok(bad) = h.join() {
-            for i in bad {
-                verdict[i].push("run on a worker thread sharing the checker differs from a fresh single run".to_owned());
+        }
+        // (b) the same program twice in a row
+        for i in 0..progs.len() {
+            let a = lint(&shared, &progs[i].1);
+            let b = lint(&shared, &progs[i].1);
+            if a != b {
+                verdict[i].push("two consecutive runs in one process differ".to_owned());
             }
         }
-    }
-    for (i, (origin, src)) in progs.iter().enumerate() {
-        let n = fresh[i].as_ref().map(|v| v.len()).unwrap_or(0);
-        out.case(
-            "C12.same",
-            &list(vec![st(origin), num(n), st(if src.len() < 1500 { src.as_str() } else { "(long)" })]),
-            &list(verdict[i].iter().map(st).collect()),
-        );
-    }
+        // (c) eight threads over one Arc<Checker>
+        let progs_arc = Arc::new(progs.clone());
+        let fresh_arc = Arc::new(fresh.clone());
+        let mut handles = Vec::new();
+        for t in 0..8u64 {
+            let shared = Arc::clone(&shared);
+            let progs = Arc::clone(&progs_arc);
+            let fresh = Arc::clone(&fresh_arc);
+            let seed = args.seed ^ (t + 1) * 7919;
+            handles.push(std::thread::spawn(move || {
+                let mut r = Rng::new(seed);
+                let mut bad: Vec<usize> = Vec::new();
+                let mut order: Vec<usize> = (0..progs.len()).collect();
+                for i in (1..order.len()).rev() {
+                    let j = r.below(i + 1);
+                    order.swap(i, j);
+                }
+                for i in order {
+                    if lint(&shared, &progs[i].1) != fresh[i] {
+                        bad.push(i);
+                    }
+                }
+                bad
+            }));
+        }
+        for h in handles {
+            if let Ok(bad) = h.join() {
+                for i in bad {
+                    verdict[i].push("run on a worker thread sharing the checker differs from a fresh single run".to_owned());
+                }
+            }
+        }
+        for (i, (origin, src)) in progs.iter().enumerate() {
+            let n = fresh[i].as_ref().map(|v| v.len()).unwrap_or(0);
+            out.case(
+                "C12.same",
+                &list(vec![st(format!("{label}{origin}")), num(n), st(if src.len() < 1500 { src.as_str() } else { "(long)" })]),
+                &list(verdict[i].iter().map(st).collect()),
+            );
+        }
 
+    }
     // (d) lookups through one library instance: the tree cache is built by the first query
     let gen = LibGen { max_depth: 3, max_keys: 6, allow_removed: false, ..LibGen::default() };
     let names = ["a", "b", "c", "d", "*"];
